@@ -110,10 +110,10 @@ Definition FPNum_abs (a : fpnum) : fpnum := FPNum4 1 (f_e a) (f_m a) (f_p a).
 Definition FPNum_div2 (a : fpnum) (n : Z) : fpnum := FPNum4 (f_s a) (f_e a) (f_m a) (py_shl (f_p a) n).
 
 (* compare: -1 / 0 / 1; 2 stands for `raise Exception()` (signs outside {1,-1}).
-   Two places of the code carry a recorded defect and a proposed one-line repair; which version the implementation runs is read
-   off by a probe, the model has both:
-     inf_fix  (fixes/C12-CMP-INF.diff):  two infinities of different sign: `return self.s` instead of `return 1`
-     zero_fix (fixes/C12-CMP-ZERO.diff): `if (a.m == 0 and b.m == 0): return 0` before the sign dispatch *)
+   Two places of the code were repaired in /repo; the model keeps the flag so that the old behaviour can still be named
+   (HISTORY examples, and the correspondence cases when the probe sees a regression):
+     inf_fix  = true  since f0972ae: two infinities of different sign: `return self.s` (before: `return 1`)
+     zero_fix = true  since b24d7f8: `if (a.m == 0 and b.m == 0): return 0` before the sign dispatch (before: absent) *)
 Definition FPNum_compare_with (inf_fix zero_fix : bool) (a0 b0 : fpnum) : Z :=
   if f_nan a0 || f_nan b0 then 0
   else if f_inf a0 && f_inf b0 && (f_s a0 =? f_s b0) then 0
@@ -131,13 +131,13 @@ Definition FPNum_compare_with (inf_fix zero_fix : bool) (a0 b0 : fpnum) : Z :=
     else if (f_s a =? -1) && (f_s b =? 1) then -1
     else if (f_s a =? 1) && (f_s b =? -1) then 1
     else 2.
-Definition FPNum_compare : fpnum -> fpnum -> Z := FPNum_compare_with false false.      (* helper.py at the pinned commit *)
+Definition FPNum_compare : fpnum -> fpnum -> Z := FPNum_compare_with true true.        (* helper.py in /repo today *)
 
-(* reduceExponentPrecision(prec) AFTER the repair of the undefined name (fixes/C12-REDUCE-EXP.diff):
+(* reduceExponentPrecision(prec) (since eab1ae9; before, the elif named an undefined e_mask and raised NameError):
      mask = (1 << prec) - 1; e_bias = mask >> 1
      if e < -(e_bias-1): while e < -(e_bias-1): e += 1; p <<= 1        (closed form)
      elif e + e_bias >= mask: infinity = True
-   (before the repair the elif raises NameError: nothing to model; the check skips this family then) *)
+   (if the probe sees the NameError again the check skips this family and reports the regression) *)
 Definition FPNum_reduceExponentPrecision (x : fpnum) (prec : Z) : fpnum :=
   let mask := py_shl 1 prec - 1 in
   let e_bias := py_shr mask 1 in
@@ -174,7 +174,8 @@ Definition FPNum_reducePrecisionWithRounding (x : fpnum) (prec : Z) : fpnum :=
 (* layout literals, all-ones exponent, bias, exponent given to subnormals by from_ieee754_*, mantissa bits, quiet-NaN mantissa *)
 Record fpfmt := mkFmt { F_lay : layout; F_emax : Z; F_bias : Z; F_sube : Z; F_mw : Z; F_nanm : Z }.
 Definition fmt_hp_with (sube : Z) : fpfmt := mkFmt layout_hp 31 15 sube 10 512.
-Definition fmt_hp : fpfmt := fmt_hp_with (-16).          (* helper.py:955 today (finding #21: IEEE says -14) *)
+Definition fmt_hp : fpfmt := fmt_hp_with (-14).          (* helper.py in /repo today (since 8541cf4) *)
+Definition fmt_hp_before_8541cf4 : fpfmt := fmt_hp_with (-16).      (* HISTORY: finding #21 *)
 Definition fmt_sp : fpfmt := mkFmt layout_sp 255 127 (-126) 23 4194304.
 Definition fmt_dp : fpfmt := mkFmt layout_dp 2047 1023 (-1022) 52 2251799813685248.
 
